@@ -67,3 +67,10 @@ Example C06_witness :
               StoreB.Ready 1; StoreB.Ready 2; StoreB.Ready 3; StoreB.RGet 1 0; StoreB.RGet 1 0; StoreB.CGet 3] in
   StoreB.ready s = [1; 2; 3] /\ StoreB.reserved s = [2] /\ StoreB.unreserved s = [1; 3].
 Proof. vm_compute. auto. Qed.
+
+(* tie B, constructor wiring: the retrieval mode configured on a Buffer is the mode its store orders availability by *)
+From FV Require SrcFragments TieWiring.
+Theorem C06_configured_mode_reaches_the_store :
+  (SrcFragments.Buffer_store_mode_wiring = SrcFragments.A_mode /\ SrcFragments.BufferStore_keeps_mode = SrcFragments.A_mode).
+Proof. exact TieWiring.mode_reaches_the_store. Qed.
+Print Assumptions C06_configured_mode_reaches_the_store.
